@@ -53,6 +53,24 @@ T_HistoryEvictHeld ==
         /\ id \notin Range(hist[p]) /\ regAt[<<p, s>>] >= 1
         /\ id = SentIds(p)[regAt[<<p, s>>]]
 
+\* everything a receiver can return is on its way back: buffer + max borrow + 1 entries in the completion
+\* queue (needs the split form of send: the receiver returned its full buffer and all borrows between the
+\* sender's reclaim and its push, then received and returned the pushed sample as well)
+T_CqFull ==
+    \E x \in Pairs : conn[x].pa /\ Card(conn[x].cq) >= sbuf[x[2]] + cfg.borrow + 1
+\* the exact worst case of the data segment: every chunk has a holder while all loans are out
+T_ChunksExhausted ==
+    \E p \in LiveP : Card(DOMAIN ck[p]) = pn[p] /\ Card(loans[p]) = cfg.loan /\ Card(RegS) = cfg.maxsubs
+\* the expired-connection buffer overflowed: a connection with undelivered data was sacrificed while the
+\* buffer is filled with connections from which samples are still held (and nothing else)
+T_ExpiredDiscard ==
+    \E s \in SubIds : /\ \E p \in PubIds : <<p, s>> \in xlost
+                      /\ sst[s] = "live"
+                      /\ Card({q \in PubIds : pst[q] = "dead" /\ C(q, s).bor # {} /\ C(q, s).sq = <<>>}) >= ExpCap
+
+Trap_CqFull == ~T_CqFull
+Trap_ChunksExhausted == ~T_ChunksExhausted
+Trap_ExpiredDiscard == ~T_ExpiredDiscard
 Trap_OverflowPartial == ~T_OverflowPartial
 Trap_SkipThenReceive == ~T_SkipThenReceive
 Trap_LateJoiner == ~T_LateJoiner
